@@ -123,6 +123,9 @@ type canonCtx struct {
 	boundIdx map[ssa.Value]bool
 	inIdx    map[ssa.Value]int
 	atIndex  func(a ssa.Value, at ssa.Instruction) bool
+	// the polynomial of every several-term divisor, as expanded where it divides (inside an inlined helper its terms
+	// are the call's arguments), by its inverse symbol
+	denPoly map[string]poly
 }
 
 func (cc *canonCtx) osym(v ssa.Value) string {
@@ -452,7 +455,12 @@ func (cc *canonCtx) expand(v ssa.Value, depth int) poly {
 					return polyMul(cc.expand(x.X, depth+1), poly{strings.Join(inv, "*"): 1 / c})
 				}
 			}
-			return polyMul(cc.expand(x.X, depth+1), poly{"/" + cc.osym(x.Y): 1})
+			ds := cc.osym(x.Y)
+			if cc.denPoly == nil {
+				cc.denPoly = map[string]poly{}
+			}
+			cc.denPoly[ds] = den
+			return polyMul(cc.expand(x.X, depth+1), poly{"/" + ds: 1})
 		}
 	}
 	return poly{cc.osym(v): 1}
@@ -683,6 +691,29 @@ func checkIdentityTable(p *Program, r *Report, rule string, table map[string]ide
 				siteAlts[w.oi] = append(siteAlts[w.oi], av)
 			}
 			wpos[w.oi] = w.at
+		}
+		if len(writes) == 0 && len(findLoops(k)) == 0 && len(k.AnonFuncs) == 0 {
+			// a kernel without any loop that hands its outputs to whole-array operations of package data
+			// (`out.CopyFrom(a); data.AddToFloat64Array(out, b)`): element-wise identities are not followed through those
+			whole := false
+			for _, c := range callsIn(k) {
+				f := c.Common().StaticCallee()
+				inData := f != nil && fnPkg(f) != nil && relPkg(fnPkg(f).Path()) == "data"
+				if rv := recvOf(c.Common()); rv != nil && c.Common().IsInvoke() && isNDType(rv.Type()) {
+					if _, isOut := outIdx[origin1(rv)]; isOut && callName(c.Common()) == "CopyFrom" {
+						whole = true
+					}
+				}
+				for _, a := range c.Common().Args {
+					if _, isOut := outIdx[origin1(stripConv(a))]; isOut && inData {
+						whole = true
+					}
+				}
+			}
+			if whole {
+				r.Unsupported(rule, key+" computes its outputs with whole-series operations (no time loop): the element-wise identity is not followed through them")
+				continue
+			}
 		}
 		if len(writes) == 0 {
 			r.Undecided(rule, key+":writes", p.Pos(k.Pos()), "no output writes at the loop's time index recognised")
